@@ -57,9 +57,20 @@ def _idt(variant, code):
     return np.dtype(variant.get("endian", "<") + code)
 
 
-def _frames_array(frames, width, dt):
+GAP_NANS = {"neg": 0xFFC00000, "payload": 0x7FC00001, "signalling": 0x7F800001}
+
+
+def _frames_array(frames, width, dt, variant=None):
     n = len(frames)
     a = np.full((n, width) if width > 1 else (n,), np.nan, dtype=dt)
+    how = (variant or {}).get("gap_nan")
+    if how in GAP_NANS and n:
+        # missing frames marked with a NaN other than numpy's default one (what 0/0 or a C library may leave behind):
+        # still "not a number", still a missing frame
+        nanv = np.array([GAP_NANS[how]], dtype="<u4").view("<f4")[0]
+        if np.dtype(dt).itemsize == 8:
+            nanv = np.array([0xFFF8000000000000 if how == "neg" else 0x7FF8000000000001], dtype="<u8").view("<f8")[0]
+        a[...] = nanv
     for i, f in enumerate(frames):
         if f is not None:
             a[i] = f
@@ -108,6 +119,8 @@ def _vp(vals, variant):
     s = np.array(vals[2:], dtype=_idt(variant, "i4"))
     if variant.get("vp") == "array22":
         return np.array([vals[:2], vals[2:]], dtype=_idt(variant, "i4"))
+    if variant.get("vp") == "lists":       # plain python lists / tuples of ints
+        return tdfTypes.CameraViewPort([int(x) for x in vals[:2]], tuple(int(x) for x in vals[2:]))
     return tdfTypes.CameraViewPort(o, s)
 
 
@@ -115,20 +128,24 @@ def build_item(kind, it, variant, spec=None):
     """one nested item (track / signal / platform / camera / channel / event)"""
     dt = _fdt(variant)
     if kind == "data3D":
-        return tdfData3D.MarkerTrack(it["label"], _order(_frames_array(it["frames"], 3, dt), variant))
+        return tdfData3D.MarkerTrack(it["label"], _order(_frames_array(it["frames"], 3, dt, variant), variant))
     if kind == "emg":
-        return tdfEMG.EMGTrack(it["label"], _order(_frames_array(it["frames"], 1, dt), variant))
+        return tdfEMG.EMGTrack(it["label"], _order(_frames_array(it["frames"], 1, dt, variant), variant))
     if kind == "force3D":
-        a = _frames_array(it["frames"], 9, dt)
+        a = _frames_array(it["frames"], 9, dt, variant)
         return tdfForce3D.ForceTorqueTrack(it["label"], _order(np.ascontiguousarray(a[:, 0:3]), variant),
                                            _order(np.ascontiguousarray(a[:, 3:6]), variant),
                                            _order(np.ascontiguousarray(a[:, 6:9]), variant))
     if kind == "platData":
-        a = _frames_array(it["frames"], 6, dt)
+        a = _frames_array(it["frames"], 6, dt, variant)
         return tdfForcePlatformsData.ForcePlatformData(_order(np.ascontiguousarray(a[:, 0:2]), variant),
                                                        _order(np.ascontiguousarray(a[:, 2:5]), variant),
                                                        _order(np.ascontiguousarray(a[:, 5]), variant))
     if kind == "platCal":
+        if variant.get("pc") == "lists":   # geometry handed over as plain (nested) python lists
+            return tdfForcePlatformsCalibration.ForcePlatformInfo(
+                it["label"], [float(x) for x in it["size"]],
+                [[float(x) for x in it["position"][3 * r:3 * r + 3]] for r in range(4)])
         return tdfForcePlatformsCalibration.ForcePlatformInfo(
             it["label"], _order(np.array(it["size"], dtype=dt), variant),
             _order(np.array(it["position"], dtype=dt).reshape(4, 3), variant))
@@ -231,7 +248,7 @@ def build(spec, variant=None):
         return tdfCalibrationData.CalibrationDataBlock(
             tdfCalibrationData.DistorsionModel(spec["model"]), _order(np.array(spec["volume"], dtype=dt), variant),
             _order(np.array(spec["rot"], dtype=dt).reshape(3, 3), variant), _order(np.array(spec["trans"], dtype=dt), variant),
-            np.array(spec["map"], dtype=_idt(variant, "i2")), [build_item(t, it, variant) for it in spec["cams"]],
+            np.array(spec["map"], dtype=_idt(variant, variant.get("mapdt", "i2"))), [build_item(t, it, variant) for it in spec["cams"]],
             tdfCalibrationData.CalibrationDataBlockFormat(spec["format"]))
     if t == "optical":
         return tdfOpticalSystem.OpticalSetupBlock(
